@@ -1,3 +1,286 @@
+/-
+  Model driver for engine `susp` (C11).  Reads the scripts of harness/h_susp.c and prints the
+  model's events in the harness' vocabulary.  What is *not* part of the model lives here:
+  the tokeniser that turns client bytes into symbols, and the kernel (select readiness /
+  edge-triggered epoll events) that feeds the round operations.
+-/
+import Mhd.Model.SuspDaemon
 import Driver.Common
-/- stub: replaced by the builder of this engine -/
-def main : IO Unit := Driver.runEngine () (fun s _ => (s, ["bad-op"]))
+open Mhd.Susp Driver
+
+structure ReqDecl where
+  headLen : Nat := 0
+  body : Body := .none
+
+/-- tokeniser state of one connection -/
+structure Tok where
+  headLeft : Nat := 0
+  started : Bool := false
+  body : Body := .none
+  clLeft : Nat := 0
+  -- chunked: 0 = size line, 1 = data (dataLeft), 2 = CRLF after data, 3 = trailer end, 4 = done
+  phase : Nat := 0
+  dataLeft : Nat := 0
+  carry : List UInt8 := []
+  bad : Bool := false
+
+structure RespDecl where
+  kind : RKind := .cbUnknown
+  size : Nat := 5
+  cbmax : Nat := 0
+
+structure DSt where
+  d : Daemon := {}
+  mode : Mode := .select
+  thr : Bool := false
+  ids : List Nat := []
+  reqs : List (Nat × ReqDecl) := []
+  plans : List (Nat × Plan) := []
+  resps : List (Nat × RespDecl) := []
+  toks : List (Nat × Tok) := []
+  kpend : List Nat := []                -- epoll: connections with a queued edge event
+  started : Bool := false
+
+def lookupD {α : Type} (n : Nat) : List (Nat × α) → Option α
+  | [] => none
+  | (i, a) :: r => if i = n then some a else lookupD n r
+
+def setD {α : Type} (n : Nat) (a : α) (l : List (Nat × α)) : List (Nat × α) :=
+  (n, a) :: l.filter (fun p => p.1 ≠ n)
+
+def kvOf (key : String) (ws : List String) : Option String :=
+  ws.findSome? fun w => if w.startsWith (key ++ "=") then some ((w.drop (key.length + 1)).toString) else none
+
+def parseAct (s : String) : Option ActK :=
+  match s.toList with
+  | ['i'] => some .imm
+  | ['p'] => some .pre
+  | ['t'] => some .imm       -- one legal interleaving of the second thread's resume
+  | ['n'] => some .manual
+  | 'd' :: r => (String.ofList r).toNat?.map ActK.delay
+  | _ => none
+
+def parseActs (s : String) : Option (List ActK) :=
+  if s == "-" then some [] else (s.splitOn ",").mapM parseAct
+
+def parseIdxActs (s : String) : Option (List (Nat × ActK)) :=
+  if s == "-" then some [] else
+  (s.splitOn ",").mapM fun w =>
+    match w.splitOn ":" with
+    | [i, a] => do let n ← i.toNat?; let x ← parseAct a; pure (n, x)
+    | _ => none
+
+def parseTakes (s : String) : Option (List (Option Nat)) :=
+  (s.splitOn ",").mapM fun w => if w == "all" then some none else w.toNat?.map some
+
+def hexNat (bs : List UInt8) : Option Nat :=
+  if bs.isEmpty then none else
+  bs.foldl (fun acc b => do
+    let a ← acc
+    let v ← hexVal (Char.ofNat b.toNat)
+    pure (a * 16 + v)) (some 0)
+
+/-- split at the first CRLF: (line, rest) -/
+def takeLine : List UInt8 → List UInt8 → Option (List UInt8 × List UInt8)
+  | 13 :: 10 :: r, acc => some (acc.reverse, r)
+  | x :: r, acc => takeLine r (x :: acc)
+  | [], _ => none
+
+partial def tokChunked (t : Tok) (out : List Sym) : Tok × List Sym :=
+  match t.phase with
+  | 0 =>
+    match takeLine t.carry [] with
+    | none => (t, out)
+    | some (line, rest) =>
+      match hexNat line with
+      | some 0 => tokChunked { t with phase := 3, carry := rest } (out ++ [.last])
+      | some n => tokChunked { t with phase := 1, dataLeft := n, carry := rest } (out ++ [.sz n])
+      | none => ({ t with bad := true }, out)
+  | 1 =>
+    match t.carry with
+    | [] => (t, out)
+    | x :: r =>
+      let t1 := { t with carry := r, dataLeft := t.dataLeft - 1 }
+      tokChunked (if t1.dataLeft = 0 then { t1 with phase := 2 } else t1) (out ++ [.b x])
+  | 2 =>
+    match t.carry with
+    | 13 :: 10 :: r => tokChunked { t with phase := 0, carry := r } (out ++ [.crlf])
+    | [13] => (t, out)
+    | [] => (t, out)
+    | _ => ({ t with bad := true }, out)
+  | 3 =>
+    match t.carry with
+    | 13 :: 10 :: r => ({ t with phase := 4, carry := r }, out ++ [.trailerEnd])
+    | [13] => (t, out)
+    | [] => (t, out)
+    | _ => ({ t with bad := true }, out)
+  | _ => if t.carry.isEmpty then (t, out) else ({ t with bad := true }, out)
+
+def tokenize (t : Tok) (bytes : List UInt8) : Tok × List Sym :=
+  -- head
+  let hl := min t.headLeft bytes.length
+  let rest := bytes.drop hl
+  let t1 := { t with headLeft := t.headLeft - hl }
+  let headDone := t.headLeft > 0 && t1.headLeft = 0
+  let out0 : List Sym := if headDone then [.head] else []
+  if t1.headLeft > 0 then (t1, out0) else
+  match t1.body with
+  | .none => if rest.isEmpty then (t1, out0) else ({ t1 with bad := true }, out0)
+  | .cl _ =>
+    let n := min t1.clLeft rest.length
+    let t2 := { t1 with clLeft := t1.clLeft - n }
+    if rest.length > n then ({ t2 with bad := true }, out0 ++ (rest.take n).map Sym.b)
+    else (t2, out0 ++ (rest.take n).map Sym.b)
+  | .chunked => tokChunked { t1 with carry := t1.carry ++ rest } out0
+
+def hexStr (bs : List UInt8) : String := hexOfBytes bs
+
+def natHex (n : Nat) : List UInt8 :=
+  let rec go (fuel n : Nat) (acc : List UInt8) : List UInt8 :=
+    match fuel with
+    | 0 => acc
+    | f + 1 =>
+      let dgt := (hexDigit (n % 16)).toNat.toUInt8
+      if n / 16 = 0 then dgt :: acc else go f (n / 16) (dgt :: acc)
+  go 16 n []
+
+def str (s : String) : List UInt8 := s.toUTF8.toList
+
+def showPhase : Phase → String
+  | .first => "first" | .refirst => "refirst" | .upload => "upload" | .final => "final"
+
+def showEv (st : DSt) (e : Ev) : List String :=
+  let c := e.1
+  let known : Bool := ((lookupD c st.plans).map fun p => p.rkind == .cbKnown).getD false
+  let size : Nat := ((lookupD c st.plans).map fun p => p.size).getD 0
+  match e.2 with
+  | .connStart => [s!"conn-start c={c}"]
+  | .handler .upload off took =>
+    [s!"handler c={c} r=0 phase=upload method=- url=- up={hexStr off}", s!"took c={c} r=0 n={took} of={off.length}"]
+  | .handler ph _ _ => [s!"handler c={c} r=0 phase={showPhase ph} method=- url=- up=-"]
+  | .queued => [s!"queued c={c} r=0 rid=0 code=200 -> 1"]
+  | .reader j pos ret =>
+    [s!"reader c={c} r=0 j={j} pos={pos} -> " ++ (match ret with | none => "eos" | some n => toString n)]
+  | .suspend eff => [s!"suspend c={c} r=0 at=x act=x eff={if eff then 1 else 0}"]
+  | .resumeReq => [s!"resume c={c} model"]
+  | .resumed => [s!"resumed c={c}"]
+  | .recv n => [s!"io c={c} recv n=" ++ (match n with | none => "-1" | some k => toString k)]
+  | .sendHdr =>
+    let h := if known then s!"HTTP/1.1 200 OK\r\nContent-Length: {size}\r\n\r\n" else "HTTP/1.1 200 OK\r\nTransfer-Encoding: chunked\r\n\r\n"
+    [s!"io c={c} send n={(str h).length}", s!"wire c={c} {hexStr (str h)}"]
+  | .sendBody bs =>
+    let w := if known then bs else natHex bs.length ++ [13, 10] ++ bs ++ [13, 10]
+    [s!"io c={c} send n={w.length}", s!"wire c={c} {hexStr w}"]
+  | .sendEnd => [s!"io c={c} send n=5", s!"wire c={c} {hexStr (str "0\r\n\r\n")}"]
+  | .completed => [s!"completed c={c} r=0 code=0"]
+  | .fault w => [s!"fault c={c} {w}"]
+
+/-- kernel bookkeeping after a model step: EPOLL_CTL_ADD queues an event, EPOLL_CTL_DEL drops it -/
+def kernelAfter (before after : Daemon) (ids : List Nat) (kp : List Nat) : List Nat :=
+  ids.foldl (fun kp c =>
+    let a := (after.conn c).inSet
+    let b := (before.conn c).inSet
+    if a && !b then (if kp.contains c then kp else kp ++ [c])
+    else if !a then kp.erase c
+    else kp) kp
+
+def doStep (st : DSt) (op : Op) : DSt × List String :=
+  let r := step srcGuards st.d op
+  let st1 := { st with d := r.1, kpend := kernelAfter st.d r.1 st.ids st.kpend }
+  (st1, (r.2.map (showEv st1)).flatten)
+
+def buildPlan (st : DSt) (c : Nat) : Plan :=
+  let p := (lookupD c st.plans).getD {}
+  let rq := (lookupD c st.reqs).getD {}
+  let rs := (lookupD p.rid st.resps).getD {}
+  { p with body := rq.body, rkind := rs.kind, size := rs.size, cbmax := rs.cbmax }
+
+def stepLine (st : DSt) (ws : List String) : DSt × List String :=
+  match ws with
+  | "case" :: n :: _ => ({}, [s!"case {n}"])
+  | "cfg" :: rest =>
+    match kvOf "mode" rest with
+    | some m =>
+      let md : Option (Mode × Bool) :=
+        if m == "select" then some (.select, false) else if m == "epoll" then some (.epoll, false)
+        else if m == "select-thr" then some (.select, true) else if m == "poll-thr" then some (.poll, true)
+        else if m == "epoll-thr" then some (.epoll, true) else none
+      match md with
+      | some (mo, th) => ({ st with mode := mo, thr := th }, ["ok"])
+      | none => (st, ["bad-op"])
+    | none => (st, ["ok"])
+  | ["start"] =>
+    -- every `beh` / `req` / `resp` line of the case precedes `start`
+    let plans := fun c => buildPlan st c
+    ({ st with started := true, d := Daemon.init st.mode plans, plans := st.plans.map (fun p => (p.1, buildPlan st p.1)) }, ["started"])
+  | "resp" :: rid :: rest =>
+    match rid.toNat?, kvOf "kind" rest, (kvOf "size" rest).bind String.toNat?, (kvOf "cbmax" rest).bind String.toNat? with
+    | some r, some k, some sz, some cm =>
+      if k == "cb-unknown" then ({ st with resps := setD r { kind := .cbUnknown, size := sz, cbmax := cm } st.resps }, ["ok"])
+      else if k == "cb-known" then ({ st with resps := setD r { kind := .cbKnown, size := sz, cbmax := cm } st.resps }, ["ok"])
+      else (st, ["bad-op"])
+    | _, _, _, _ => (st, ["bad-op"])
+  | "req" :: c :: "0" :: rest =>
+    match c.toNat?, (kvOf "head" rest).bind String.toNat?, kvOf "body" rest with
+    | some ci, some hl, some b =>
+      let body : Option Body :=
+        if b == "none" then some .none else if b == "ch" then some .chunked
+        else match b.splitOn ":" with
+          | ["cl", n] => n.toNat?.map Body.cl
+          | _ => none
+      match body with
+      | some bd =>
+        let cl := match bd with | .cl n => n | _ => 0
+        ({ st with reqs := setD ci { headLen := hl, body := bd } st.reqs,
+                   toks := setD ci { headLeft := hl, body := bd, clLeft := cl } st.toks }, ["ok"])
+      | none => (st, ["bad-op"])
+    | _, _, _ => (st, ["bad-op"])
+  | "beh" :: c :: "0" :: rest =>
+    match c.toNat?, (kvOf "fs" rest).bind parseActs, (kvOf "ls" rest).bind parseActs,
+          (kvOf "us" rest).bind parseIdxActs, (kvOf "rs" rest).bind parseIdxActs,
+          (kvOf "u" rest).bind parseTakes, (kvOf "rd" rest).bind String.toNat?, kvOf "l" rest with
+    | some ci, some fs, some ls, some us, some rs, some tk, some rd, some l =>
+      match (l.drop 1).toString.toNat? with
+      | some rid =>
+        ({ st with plans := setD ci { fs := fs, ls := ls, us := us, rs := rs, takes := tk, rd := rd != 0, rid := rid } st.plans }, ["ok"])
+      | none => (st, ["bad-op"])
+    | _, _, _, _, _, _, _, _ => (st, ["bad-op"])
+  | ["arrive", c, _] =>
+    match c.toNat? with
+    | some ci =>
+      if !st.started || st.ids.contains ci then (st, ["bad-op"]) else
+      let st1 := { st with ids := st.ids ++ [ci] }
+      let r := doStep st1 (.arrive ci)
+      (r.1, [s!"arrive c={ci} -> 1"] ++ r.2)
+    | none => (st, ["bad-op"])
+  | ["send", c, h] =>
+    match c.toNat?, bytesOfHex h with
+    | some ci, some bytes =>
+      if !st.ids.contains ci then (st, ["bad-op"]) else
+      let t := (lookupD ci st.toks).getD {}
+      let r := tokenize t bytes
+      if r.1.bad then (st, [s!"fault c={ci} tokeniser: not one of the modelled request shapes"]) else
+      let st1 := { st with toks := setD ci r.1 st.toks }
+      let kp := if (st1.d.conn ci).inSet && !st1.kpend.contains ci then st1.kpend ++ [ci] else st1.kpend
+      let r2 := doStep { st1 with kpend := kp } (.send ci r.2)
+      (r2.1, [s!"sent c={ci} n={bytes.length}"] ++ r2.2)
+    | _, _ => (st, ["bad-op"])
+  | ["round"] =>
+    if !st.started then (st, ["bad-op"]) else
+    match st.d.mode with
+    | .epoll =>
+      let evs := st.kpend.map fun c => (c, !(st.d.conn c).inbox.isEmpty, true)
+      let r := doStep { st with kpend := [] } (.eround st.ids evs)
+      (r.1, r.2 ++ ["round-end"])
+    | _ =>
+      let d := st.d
+      let r := doStep st (.round st.ids (fun c => !(d.conn c).inbox.isEmpty) (fun _ => true))
+      (r.1, r.2 ++ ["round-end"])
+  | ["resume", c] =>
+    match c.toNat? with
+    | some ci => if st.ids.contains ci then doStep st (.resume ci) else (st, ["bad-op"])
+    | none => (st, ["bad-op"])
+  | ["stop"] => (st, ["stopped"])
+  | _ => (st, ["bad-op"])
+
+def main : IO Unit := runEngine ({} : DSt) stepLine
